@@ -70,7 +70,8 @@ Fixpoint cget (x : string) (l : cenv) : option cv :=
   | (y, v) :: t => if String.eqb x y then Some v else cget x t
   end.
 
-(* assignment updates the binding in place (all locals are declared up front) *)
+(* assignment updates the binding in place; a declaration appends a new binding, which is dropped
+   again when the block it was declared in ends *)
 Fixpoint cset (x : string) (v : cv) (l : cenv) : cenv :=
   match l with
   | [] => [(x, v)]
@@ -283,7 +284,8 @@ Section CInterp.
               | Some true =>
                   match run err l body with
                   | (l1, KNorm l1' e1) =>
-                      match run e1 l1' step with
+                      (* locals declared in the body block go out of scope *)
+                      match run e1 (firstn (List.length l) l1') step with
                       | (l2, KNorm l2' e2) => let (l3, r) := loop n' e2 l2' in (l1 ++ l2 ++ l3, r)
                       | (l2, r) => (l1 ++ l2, r)
                       end
@@ -340,7 +342,11 @@ Section CInterp.
         match ceval err l c with
         | Some v =>
             match ctruth v with
-            | Some b => kblock kexec err l (if b then thn else els)
+            | Some b =>
+                match kblock kexec err l (if b then thn else els) with
+                | (lg, KNorm l' e') => (lg, KNorm (firstn (List.length l) l') e')   (* block scope ends *)
+                | r => r
+                end
             | None => ([], KStuck)
             end
         | None => ([], KStuck)
